@@ -37,7 +37,7 @@ PROPS = {
                               'pysph/solver/solver_interfaces.py CommandlineInterface.start (share of runs)'],
                         fake=['solver object (attribute bag recording writes)',
                               'solver thread loop (count += 1; execute_commands(solver))',
-                              'threading/_thread (vsim.simthreads)', 'input()/print() of the command line front end'],
+                              'threading/_thread (vsim.simthreads)', 'injected size-1 communicator whose bcast/gather are scheduling points (half of the runs)', 'input()/print() of the command line front end'],
                         not_simulated=['XML-RPC and multiprocessing front ends (need sockets)',
                                        'blocking-mode commands are executed in the caller, not queued: not covered by the statement']),
         assumptions=['pre-emption only at synchronisation primitives (the property\'s stated granularity)',
@@ -126,7 +126,7 @@ def gen(t, prop, tier):
         policy['starve'] = {'tid': t.int(0, n_iface), 'from': a, 'to': a + t.int(5, 60)}
     return dict(programs=programs, policy_kind=kind, policy=policy,
                 sched=[t.int(0, 5) for _ in range(t.choice([40, 120, 300]))],
-                max_cp=t.choice([6, 12, 25]), spurious=0)
+                max_cp=t.choice([6, 12, 25]), spurious=0, comm_yield=1 if t.bool(0.5) else 0)
 
 
 def _gen_cli(t, regime):
@@ -151,6 +151,27 @@ def describe(sc):
 
 
 # ----------------------------------------------------------------------------
+class SimComm(object):
+    """an injected communicator (constructor seam of CommandManager) of size 1
+    whose collective calls are blocking points at which other threads may run,
+    as they are with a real MPI communicator"""
+    size = 1
+
+    def Get_size(self):
+        return 1
+
+    def Get_rank(self):
+        return 0
+
+    def bcast(self, data):
+        st.yield_now('bcast')
+        return data
+
+    def gather(self, data):
+        st.yield_now('gather')
+        return [data]
+
+
 class FakePA(object):
     def __init__(self, h, name):
         object.__setattr__(self, '_h', h)
@@ -387,7 +408,10 @@ def execute(sc, prop):
     ctl = st.exec_module_with_simthreads('verif_controller', _SRC['controller'])
     solver = FakeSolver(h)
     h.solver = solver
-    cm = ctl.CommandManager(solver)
+    if sc.get('comm_yield'):
+        cm = ctl.CommandManager(solver, comm=SimComm())
+    else:
+        cm = ctl.CommandManager(solver)
     for nm in ('rlock', 'res_lock', 'plock', 'qlock'):
         o = getattr(cm, nm)
         o.label = nm
